@@ -230,7 +230,9 @@ def build_shared_features_map(mod: fx.GraphModule,
     sm_dict = {}
     for c in nx.weakly_connected_components(sharing_graph):
         sm = None
-        for n in c:
+        # (a network input only makes its component unprunable: the width of the masker is that
+        # of a layer of the component, if there is one - e.g. `relu(fc(f)) + f`, `f = flatten(x)`)
+        for n in sorted(c, key=lambda m: m.op == 'placeholder'):
             # identify a node which can give us the number of features with 100% certainty
             # such as a convolution. Nodes such as flatten/squeeze/view/etc make this necessary
             if n.meta['features_defining'] or n.meta['untouchable'] and sm is None:
